@@ -217,13 +217,13 @@ theorem pad_new_voxels_statistic (coord : Coord) (v : Vol) (wd : PadWidth) (o : 
   exact padArray_stat_global hm hs hpc ha j (provOf_none hj) c
 
 /-- The same per channel (`per_channel=True`, more than one channel): the statistic of that channel alone; the
-result is a floating-point array. -/
+dtype of the array is kept. -/
 theorem pad_new_voxels_per_channel (coord : Coord) (v : Vol) (wd : PadWidth) (o : PadOpts) (w : VStep) (mode : PadMode)
     (hm : PadMode.parse o.mode = some mode) (hs : isStat mode = true)
     (hpc : (o.perChannel && !(v.cshape.isEmpty || v.cshape == [1])) = true)
     (h : (SOp.pad wd o).applyVol coord v = .ok w) (j : I3) (hj : w.2 j = none) (c : List Nat)
     (hc : c ∈ chanIndices v.cshape) :
-    ∃ x, statOf mode (v.channelValues c) = some x ∧ w.1.arr j c = castTo v.isInt x ∧ w.1.isInt = false := by
+    ∃ x, statOf mode (v.channelValues c) = some x ∧ w.1.arr j c = castTo v.isInt x ∧ w.1.isInt = v.isInt := by
   simp only [SOp.applyVol] at h
   obtain ⟨_, _, h⟩ := bind_ok.mp h
   obtain ⟨r, _, h⟩ := bind_ok.mp h
